@@ -6,7 +6,7 @@
    global index, every attribute/public assignment, ignorePublic, includeSelf, ring mode or any admissible
    neighbour hints with ANY order of arrival, every history of resizes and rebuilds. *)
 From Coq Require Import List Arith Bool ZArith Permutation Lia.
-From DuneV Require Import C04_Model C04_Spec C04_Proofs C04_Proofs_Build C04_Proofs_Sync C04_Proofs_Ring C04_Proofs_Obj C04_Proofs_Exec.
+From DuneV Require Import C04_Model C04_Spec C04_Proofs C04_Proofs_Build C04_Proofs_Sync C04_Proofs_Ring C04_Proofs_Obj C04_Proofs_Exec C04_Proofs_Mixed.
 Import ListNotations.
 
 (* the merge-join loop (index / oldGlobal / restart at oldLocalIndex) never runs out of fuel and returns the join
@@ -229,6 +229,31 @@ Theorem C04_obj_build_is_spec : forall (two ign incself : bool) d hints p,
 Proof. exact P_obj_buildf_spec. Qed.
 Print Assumptions C04_obj_build_is_spec.
 
+
+(* MIXED CONFIGURATIONS: every process decides locally (source_ != target_) whether it publishes one index set or two; a
+   process may pass ONE ParallelIndexSet object for both roles while another passes two.  The message says which (first byte),
+   and unpackCreateRemote has branches for the two mixed cases.  As AFTER fix fixes/C04-1 (finding F-C04-1; the model follows
+   the repaired code): the two-list unpackIndices is the pair of joins when every set holds a global index once ... *)
+Theorem C04_unpack2_is_join : forall remote src dst send recv,
+  c04_sorted remote -> c04_distinct remote -> c04_sorted src -> c04_distinct src -> c04_sorted dst -> c04_distinct dst ->
+  c04_unpack2 remote src dst send recv = (send ++ c04_join false src remote, recv ++ c04_join false dst remote).
+Proof. exact P_unpack2_is_join. Qed.
+Print Assumptions C04_unpack2_is_join.
+
+(* ... and for every assignment twos of one/two objects to the processes, every P, ring or admissible hints in any arrival
+   order, the map of rank p is the same set comprehension, the target set of a one-object process being its source set *)
+Theorem C04_spec_mixed : forall (twos : list bool) (ign incself : bool) d mode p,
+  c04_decomp_sorted d -> c04_decomp_distinct d -> length twos = length d -> p < length d ->
+  match mode with None => True | Some orders => c04_hints_ok_mixed ign twos incself d p (nth p orders []) end ->
+  nth p (c04_build_mixed twos ign incself d mode) C04_OutOfFuel = C04_Ok (c04_spec_rank_mixed ign twos incself d p).
+Proof. exact P_spec_mixed. Qed.
+Print Assumptions C04_spec_mixed.
+
+Theorem C04_spec_mixed_agrees_when_uniform : forall (two ign incself : bool) d p, p < length d ->
+  c04_spec_rank_mixed ign (map (fun _ => two) d) incself d p = c04_spec_rank ign two incself d p.
+Proof. exact P_spec_rank_mixed_const. Qed.
+Print Assumptions C04_spec_mixed_agrees_when_uniform.
+
 (* ---- non-vacuity ------------------------------------------------------------------------------------------ *)
 Definition ex_s0 := [C04_mkpair 0 10 0 true; C04_mkpair 1 11 0 true; C04_mkpair 2 12 1 true].
 Definition ex_s1 := [C04_mkpair 1 20 1 true; C04_mkpair 2 21 0 true; C04_mkpair 3 22 0 false].
@@ -338,3 +363,26 @@ Proof.
   vm_compute. repeat split; try reflexivity.
   intros p Hp. destruct p as [|[|[|p]]]; [| | |lia]; repeat constructor; simpl; intuition discriminate.
 Qed.
+
+(* F-C04-1, the witness: rank 0 passes ONE object {1,2,3}, rank 1 passes TWO: source {3}, target {1,3}.
+   The repaired loop gives rank 1 the receive list [target pair of 1; target pair of 3]; the UNFIXED loop
+   (localDest[sourceIndex]) pushes the target pair of 1 twice; and with target {3} only it indexes outside the array. *)
+Example C04_unpack2_legacy_refuted :
+  let remote := [C04_mkpair 1 10 0 true; C04_mkpair 2 11 0 true; C04_mkpair 3 12 0 true] in
+  let src := [C04_mkpair 3 20 1 true] in
+  let dst := [C04_mkpair 1 21 2 true; C04_mkpair 3 22 2 true] in
+  c04_unpack2 remote src dst [] [] = (c04_join false src remote, c04_join false dst remote) /\
+  snd (c04_unpack2 remote src dst [] []) = [(0, C04_mkpair 1 21 2 true); (0, C04_mkpair 3 22 2 true)] /\
+  c04_unpack2_legacy src dst remote src dst [] [] = Some ([(0, C04_mkpair 3 20 1 true)], [(0, C04_mkpair 1 21 2 true); (0, C04_mkpair 1 21 2 true)]) /\
+  c04_unpack2_legacy [C04_mkpair 1 20 1 true; C04_mkpair 3 23 1 true] [C04_mkpair 3 22 2 true] remote
+                     [C04_mkpair 1 20 1 true; C04_mkpair 3 23 1 true] [C04_mkpair 3 22 2 true] [] [] = None.
+Proof. vm_compute. repeat split; reflexivity. Qed.
+
+(* the whole mixed build on that decomposition equals the spec, and rank 0 (one object) sends along its indices 1 and 3 *)
+Example C04_example_mixed_build :
+  let d : c04_decomp := [([C04_mkpair 1 10 0 true; C04_mkpair 2 11 0 true; C04_mkpair 3 12 0 true], []);
+                         ([C04_mkpair 3 20 1 true], [C04_mkpair 1 21 2 true; C04_mkpair 3 22 2 true])] in
+  c04_build_mixed [false; true] false false d None = map (fun p => C04_Ok (c04_spec_rank_mixed false [false; true] false d p)) [0; 1] /\
+  c04_spec_rank_mixed false [false; true] false d 0 =
+    [(1, ([(2, C04_mkpair 1 10 0 true); (2, C04_mkpair 3 12 0 true)], [(1, C04_mkpair 3 12 0 true)]))].
+Proof. vm_compute. split; reflexivity. Qed.
